@@ -7,6 +7,17 @@ ROOT = os.path.dirname(os.path.dirname(os.path.abspath(__file__)))
 ALL = ["C%02d" % i for i in range(1, 21)]
 
 CLAIMED = {
+    "C20": dict(
+        category="model_checking",
+        text="MC_Purity model-checks the purity law (the answer depends on the member only) for every call history over a pool of four members and shows "
+             "that two named impure designs (position-dependent answer, stale cache) violate it. The 28 224 call histories TLC exports (two calls, batches "
+             "of 1..3 members in every order with repetition, row and concatenated-block layouts) are sampled and replayed on 51 real components "
+             "(encoders, inverses, hard and soft decoders, memoryless modems, per-item constraints), interleaved across two objects; Trace_Purity keeps the "
+             "learnt member->result function as state and rejects any later disagreement, input mutation, or a raising single-sample call.",
+        design_ref="7/C20",
+        note="Result ids are equivalence classes up to rtol 1e-5 / atol 1e-6; a layout may be rejected with an error (listed in the evidence) but never answered "
+             "with different values.",
+        technique="TLA+ spec Purity + TLC: design-level model checking, TLC-exported call histories replayed on the code, trace validation"),
     "C10": dict(
         category="model_checking",
         text="MC_SoftDecoding checks the oracle (Wagner's rule = brute-force soft ML on every tie-free vector; cycle-free test; flooding min-sum). "
